@@ -8,8 +8,16 @@ open HedVerif.FS HedVerif.Backup
 
 /-! ## 1. A torn record is never accepted -/
 
+theorem u4_noRb (n : Nat) : ∀ x ∈ u4 n, x ≠ Sym.rb := by
+  intro x hx; simp [u4] at hx; grind
+
 theorem escape_noRb (ch : Char) : ∀ x ∈ escape ch, x ≠ Sym.rb := by
-  intro x hx; unfold escape at hx; split at hx <;> simp at hx <;> grind
+  intro x hx; unfold escape at hx
+  repeat' (split at hx)
+  all_goals first
+    | exact u4_noRb _ _ hx
+    | (simp only [List.mem_append] at hx; rcases hx with h | h <;> exact u4_noRb _ _ h)
+    | (simp at hx; grind)
 
 theorem strToks_noRb (k : List Char) : ∀ x ∈ strToks k, x ≠ Sym.rb := by
   intro x hx
@@ -377,6 +385,71 @@ theorem copyMap_spec (c : Cfg) (g : List Sym → List Sym) (pick : Path → Bool
 theorem dpath_ne_bpath (c : Cfg) (f f' : Path) (h : ¬ c.bdir <+: c.dpath f) : c.dpath f ≠ c.bpath f' :=
   fun he => h (he ▸ bdir_prefix_bpath c f')
 
+/-! ### Restore / remodel as steps: they never write below the backup directory -/
+
+theorem mkdirs_data_tgt (c : Cfg) (f : Path) : ∀ st ∈ (mkdirsSteps c.dataRoot f.dropLast : List (Step Sym)),
+    ∀ q ∈ st.tgt, q <+: c.dpath f := by
+  intro st hst q hq
+  simp only [mkdirsSteps, List.mem_map, List.mem_range] at hst
+  obtain ⟨i, _, rfl⟩ := hst
+  simp only [Step.tgt, List.mem_singleton] at hq
+  subst hq
+  simp only [Cfg.dpath]
+  rw [List.prefix_append_right_inj]
+  exact (List.take_prefix _ _).trans (List.dropLast_prefix f)
+
+/-- every step of a restore / rewrite targets a data file of the list or one of its ancestors -/
+theorem copySteps_tgt (c : Cfg) (g : List Sym → List Sym) (mk : Bool) (pick : Path → Bool) (fs : List Path) (s : St) :
+    ∀ st ∈ copySteps c g mk pick fs s, ∀ q ∈ st.tgt, ∃ f ∈ fs, q <+: c.dpath f := by
+  induction fs with
+  | nil => intro st hst; simp [copySteps] at hst
+  | cons f r ih =>
+    intro st hst q hq
+    simp only [copySteps] at hst
+    split at hst
+    · split at hst
+      · simp only [List.mem_append] at hst
+        rcases hst with (h | h) | h
+        · split at h
+          · exact ⟨f, List.mem_cons_self .., mkdirs_data_tgt c f st h q hq⟩
+          · cases h
+        · exact ⟨f, List.mem_cons_self .., by rw [writeSteps_tgt _ _ st h q hq]; exact List.prefix_refl _⟩
+        · obtain ⟨f', hf', hp⟩ := ih st h q hq
+          exact ⟨f', List.mem_cons_of_mem _ hf', hp⟩
+      · cases hst
+    · obtain ⟨f', hf', hp⟩ := ih st hst q hq
+      exact ⟨f', List.mem_cons_of_mem _ hf', hp⟩
+
+/-- Frame: after ANY prefix of the steps, every path below the backup directory is as before. -/
+theorem copySteps_frame (c : Cfg) (g : List Sym → List Sym) (mk : Bool) (pick : Path → Bool) (fs : List Path)
+    (s0 s : St) (hout : ∀ f ∈ fs, ¬ c.bdir <+: c.dpath f) (k : Nat) (p : Path) (hp : c.bdir <+: p) :
+    get (crashAfter k (copySteps c g mk pick fs s0) s) p = get s p := by
+  apply get_exec
+  intro st hst hq
+  obtain ⟨f, hf, hpf⟩ := copySteps_tgt c g mk pick fs s0 st (List.mem_of_mem_take hst) p hq
+  exact hout f hf (hp.trans hpf)
+
+/-- **`restore_backup`, complete or interrupted at any step, never writes below the backup directory.** -/
+theorem restore_never_touches_backup (c : Cfg) (fs : List Path) (tasks : List Name) (s : St)
+    (hout : ∀ f ∈ fs, ¬ c.bdir <+: c.dpath f) (k : Nat) (p : Path) (hp : c.bdir <+: p) :
+    get (crashAfter k (restoreSteps c fs tasks s) s) p = get s p :=
+  copySteps_frame c id true _ fs s s hout k p hp
+
+/-- **A remodel run, complete or interrupted at any step, never writes below the backup directory.** -/
+theorem remodel_never_touches_backup (c : Cfg) (T : List Sym → List Sym) (fs : List Path) (tasks : List Name)
+    (order : List Path) (s : St) (hout : ∀ f ∈ fs, ¬ c.bdir <+: c.dpath f)
+    (hord : ∀ f ∈ order, ¬ c.bdir <+: c.dpath f) (k : Nat) (p : Path) (hp : c.bdir <+: p) :
+    get (crashAfter k (remodelSteps c T fs tasks order s) s) p = get s p := by
+  apply get_exec
+  intro st hst hq
+  have hm := List.mem_of_mem_take hst
+  simp only [remodelSteps, restoreSteps, List.mem_append] at hm
+  rcases hm with h | h
+  · obtain ⟨f, hf, hpf⟩ := copySteps_tgt c id true _ fs s st h p hq
+    exact hout f hf (hp.trans hpf)
+  · obtain ⟨f, hf, hpf⟩ := copySteps_tgt c T false _ order s st h p hq
+    exact hord f hf (hp.trans hpf)
+
 /-- No operation of a history writes below the backup directory. -/
 theorem applyOp_untouched (c : Cfg) (T : List Sym → List Sym) (fs : List Path)
     (hout : ∀ f ∈ fs, ¬ c.bdir <+: c.dpath f) (s s' : St) (o : Op) (hs : o.safe c)
@@ -403,7 +476,7 @@ theorem applyOp_untouched (c : Cfg) (T : List Sym → List Sym) (fs : List Path)
     split at h
     · cases h
     · exact copyMap_frame c id _ fs s s' h p (hne _)
-  | remodel =>
+  | remodel tasks =>
     simp only [applyOp, remodel] at h
     split at h
     · cases h
@@ -413,6 +486,12 @@ theorem applyOp_untouched (c : Cfg) (T : List Sym → List Sym) (fs : List Path)
         split at h
         · cases h
         · rw [copyMap_frame c T _ fs s1 s' h p (hne _), copyMap_frame c id _ fs s s1 h1 p (hne _)]
+  | restoreCrash tasks k =>
+    simp only [applyOp] at h; cases h
+    exact copySteps_frame c id true _ fs s s hout k p hp
+  | remodelCrash tasks order k =>
+    simp only [applyOp] at h; cases h
+    exact remodel_never_touches_backup c T fs tasks order s hout hs k p hp
 
 theorem runOps_untouched (c : Cfg) (T : List Sym → List Sym) (fs : List Path)
     (hout : ∀ f ∈ fs, ¬ c.bdir <+: c.dpath f) (ops : List Op) (s s' : St)
@@ -515,13 +594,38 @@ theorem restore_tasks_complete (c : Cfg) (fs : List Path) (tasks : List Name) (o
       rw [getTask_of_mem tasks _ hne hsel, Bool.or_true]
     exact hspec f hf hp _ (hback f hf)
 
+/-- **An interrupted restore or remodel is just another thing done to the data files.**  Stop a
+`restore_backup(tasks)` or a remodel run after any number `k` of its primitive steps (directory creations,
+truncations, half-written files): a subsequent complete restore still succeeds and returns every
+recorded file to its backup bytes. -/
+theorem restore_after_crashed_restore (c : Cfg) (T : List Sym → List Sym) (fs : List Path) (orig : Path → List Sym)
+    (tasks : List Name) (order : List Path) (s : St) (k : Nat)
+    (hne : fs ≠ [])
+    (hout : ∀ f ∈ fs, ¬ c.bdir <+: c.dpath f)
+    (hord : ∀ f ∈ order, ¬ c.bdir <+: c.dpath f)
+    (hcomplete : ∀ f ∈ fs, get s (c.bpath f) = some (.reg (orig f))) :
+    (∃ s'', restore c fs [] (crashAfter k (restoreSteps c fs tasks s) s) = .ok s'' ∧
+        ∀ f ∈ fs, get s'' (c.dpath f) = some (.reg (orig f))) ∧
+    (∃ s'', restore c fs [] (crashAfter k (remodelSteps c T fs tasks order s) s) = .ok s'' ∧
+        ∀ f ∈ fs, get s'' (c.dpath f) = some (.reg (orig f))) := by
+  constructor
+  · obtain ⟨s'', h1, h2, _⟩ := restore_identity c T fs orig [.restoreCrash tasks k] s
+      (crashAfter k (restoreSteps c fs tasks s) s) hne hout hcomplete
+      (by intro o ho; simp at ho; subst ho; trivial) rfl
+    exact ⟨s'', h1, h2⟩
+  · obtain ⟨s'', h1, h2, _⟩ := restore_identity c T fs orig [.remodelCrash tasks order k] s
+      (crashAfter k (remodelSteps c T fs tasks order s) s) hne hout hcomplete
+      (by intro o ho; simp at ho; subst ho; exact hord) rfl
+    exact ⟨s'', h1, h2⟩
+
 /-! ## 8. Remodel twice = remodel once -/
 
-theorem remodelCore_idempotent (c : Cfg) (T : List Sym → List Sym) (fs : List Path) (s s' : St)
+theorem remodelCore_idempotent (c : Cfg) (T : List Sym → List Sym) (pick1 pick2 : Path → Bool) (fs : List Path)
+    (s s' : St)
     (hout : ∀ f ∈ fs, ¬ c.bdir <+: c.dpath f)
     (hback : ∀ f ∈ fs, ∃ b, get s (c.bpath f) = some (.reg b))
-    (h : remodelCore c T fs s = .ok s') :
-    ∃ s'', remodelCore c T fs s' = .ok s'' ∧ ∀ p, get s'' p = get s' p := by
+    (h : remodelCore c T pick1 pick2 fs s = .ok s') :
+    ∃ s'', remodelCore c T pick1 pick2 fs s' = .ok s'' ∧ ∀ p, get s'' p = get s' p := by
   have hdisj : ∀ f ∈ fs, ∀ f' ∈ fs, c.dpath f ≠ c.bpath f' :=
     fun f hf f' _ => dpath_ne_bpath c f f' (hout f hf)
   have hnb : ∀ (pick : Path → Bool) (a : Path), ∀ f ∈ fs, pick f = true → c.bpath a ≠ c.dpath f :=
@@ -534,48 +638,127 @@ theorem remodelCore_idempotent (c : Cfg) (T : List Sym → List Sym) (fs : List 
     fun a => copyMap_frame c id _ fs s s1 h1 _ (hnb _ a)
   have b2 : ∀ a, get s' (c.bpath a) = get s (c.bpath a) :=
     fun a => by rw [copyMap_frame c T _ fs s1 s' h _ (hnb _ a), b1]
-  obtain ⟨t1, ht1, sp1⟩ := copyMap_spec c id (fun _ => true) fs s hdisj hback
+  obtain ⟨t1, ht1, sp1⟩ := copyMap_spec c id pick1 fs s hdisj hback
   rw [h1] at ht1; cases ht1
-  obtain ⟨t2, ht2, sp2⟩ := copyMap_spec c T selKey fs s1 hdisj (fun f hf => by rw [b1]; exact hback f hf)
+  obtain ⟨t2, ht2, sp2⟩ := copyMap_spec c T pick2 fs s1 hdisj (fun f hf => by rw [b1]; exact hback f hf)
   rw [h] at ht2; cases ht2
   -- second run
-  obtain ⟨u1, hu1, sq1⟩ := copyMap_spec c id (fun _ => true) fs s' hdisj (fun f hf => by rw [b2]; exact hback f hf)
+  obtain ⟨u1, hu1, sq1⟩ := copyMap_spec c id pick1 fs s' hdisj (fun f hf => by rw [b2]; exact hback f hf)
   have b3 : ∀ a, get u1 (c.bpath a) = get s (c.bpath a) :=
     fun a => by rw [copyMap_frame c id _ fs s' u1 hu1 _ (hnb _ a), b2]
-  obtain ⟨u2, hu2, sq2⟩ := copyMap_spec c T selKey fs u1 hdisj (fun f hf => by rw [b3]; exact hback f hf)
+  obtain ⟨u2, hu2, sq2⟩ := copyMap_spec c T pick2 fs u1 hdisj (fun f hf => by rw [b3]; exact hback f hf)
   refine ⟨u2, by simp [remodelCore, hu1, hu2], ?_⟩
   intro p
-  by_cases hsel : ∃ f ∈ fs, selKey f = true ∧ p = c.dpath f
+  by_cases hsel : ∃ f ∈ fs, pick2 f = true ∧ p = c.dpath f
   · obtain ⟨f, hf, hsf, rfl⟩ := hsel
     obtain ⟨b, hb⟩ := hback f hf
     rw [sq2 f hf hsf b (by rw [b3]; exact hb), sp2 f hf hsf b (by rw [b1]; exact hb)]
-  · have hns : ∀ f ∈ fs, selKey f = true → p ≠ c.dpath f := fun f hf hsf he => hsel ⟨f, hf, hsf, he⟩
+  · have hns : ∀ f ∈ fs, pick2 f = true → p ≠ c.dpath f := fun f hf hsf he => hsel ⟨f, hf, hsf, he⟩
     rw [copyMap_frame c T _ fs u1 u2 hu2 p hns, copyMap_frame c T _ fs s1 s' h p hns]
-    by_cases hany : ∃ f ∈ fs, p = c.dpath f
-    · obtain ⟨f, hf, rfl⟩ := hany
+    by_cases hany : ∃ f ∈ fs, pick1 f = true ∧ p = c.dpath f
+    · obtain ⟨f, hf, hp1, rfl⟩ := hany
       obtain ⟨b, hb⟩ := hback f hf
-      rw [sq1 f hf rfl b (by rw [b2]; exact hb), sp1 f hf rfl b hb]
-    · have hna : ∀ f ∈ fs, (fun _ : Path => true) f = true → p ≠ c.dpath f := fun f hf _ he => hany ⟨f, hf, he⟩
+      rw [sq1 f hf hp1 b (by rw [b2]; exact hb), sp1 f hf hp1 b hb]
+    · have hna : ∀ f ∈ fs, pick1 f = true → p ≠ c.dpath f := fun f hf h1' he => hany ⟨f, hf, h1', he⟩
       rw [copyMap_frame c id _ fs s' u1 hu1 p hna, copyMap_frame c T _ fs s1 s' h p hns]
 
-theorem remodel_core (c : Cfg) (T : List Sym → List Sym) (fs : List Path) (s s' : St)
-    (h : remodel c T fs s = .ok s') : remodelCore c T fs s = .ok s' := by
+theorem remodel_core (c : Cfg) (T : List Sym → List Sym) (fs : List Path) (tasks : List Name) (s s' : St)
+    (h : remodel c T fs tasks s = .ok s') :
+    ∃ s1, copyMap c id (picked tasks) fs s = .ok s1 ∧
+      remodelCore c T (picked tasks) (rewritten c tasks s1) fs s = .ok s' := by
   simp only [remodel] at h
   split at h; · cases h
   split at h; · cases h
   rename_i s1 h1
   split at h; · cases h
-  simp [remodelCore, h1, h]
+  exact ⟨s1, h1, by simp [remodelCore, h1, h]⟩
 
-/-- **Running the remodeler twice equals running it once**: each run restores and then rewrites every
-selected file from its backup copy, so the second run's result has the same files as the first. -/
-theorem remodel_idempotent (c : Cfg) (T : List Sym → List Sym) (fs : List Path) (s s' s'' : St)
+theorem copyMap_pick_congr (c : Cfg) (g : List Sym → List Sym) (pick pick' : Path → Bool) (fs : List Path) (s : St)
+    (h : ∀ f ∈ fs, pick f = pick' f) : copyMap c g pick fs s = copyMap c g pick' fs s := by
+  induction fs generalizing s with
+  | nil => rfl
+  | cons f r ih =>
+    simp only [copyMap, h f (List.mem_cons_self ..)]
+    have hr := fun s => ih s (fun a ha => h a (List.mem_cons_of_mem _ ha))
+    split
+    · split
+      · exact hr _
+      · rfl
+    · exact hr _
+
+/-- after `copyMap`, the data file of a recorded file is regular iff it was picked or was regular before -/
+theorem copyMap_isReg (c : Cfg) (g : List Sym → List Sym) (pick : Path → Bool) (fs : List Path) (s s1 : St)
+    (hdisj : ∀ f ∈ fs, ∀ f' ∈ fs, c.dpath f ≠ c.bpath f')
+    (hback : ∀ f ∈ fs, ∃ b, get s (c.bpath f) = some (.reg b))
+    (h : copyMap c g pick fs s = .ok s1) (f : Path) (hf : f ∈ fs) :
+    isReg s1 (c.dpath f) = (pick f || isReg s (c.dpath f)) := by
+  obtain ⟨t, ht, spec⟩ := copyMap_spec c g pick fs s hdisj hback
+  rw [h] at ht; cases ht
+  by_cases hp : pick f = true
+  · obtain ⟨b, hb⟩ := hback f hf
+    simp [isReg, spec f hf hp b hb, hp]
+  · have := copyMap_frame c g pick fs s s1 h (c.dpath f) (fun f' _ hp' he => by
+      have : f = f' := List.append_cancel_left he
+      subst this; exact hp hp')
+    simp [isReg, this, hp]
+
+/-- **Running the remodeler twice equals running it once** (also with `-t tasks`): each run restores the
+picked files and then rewrites every selected existing file of the requested tasks from its backup
+copy, so the second run's result has the same files as the first. -/
+theorem remodel_idempotent (c : Cfg) (T : List Sym → List Sym) (fs : List Path) (tasks : List Name) (s s' s'' : St)
     (hout : ∀ f ∈ fs, ¬ c.bdir <+: c.dpath f)
     (hback : ∀ f ∈ fs, ∃ b, get s (c.bpath f) = some (.reg b))
-    (h1 : remodel c T fs s = .ok s') (h2 : remodel c T fs s' = .ok s'') : ∀ p, get s'' p = get s' p := by
-  obtain ⟨u, hu, heq⟩ := remodelCore_idempotent c T fs s s' hout hback (remodel_core c T fs s s' h1)
-  rw [remodel_core c T fs s' s'' h2] at hu
+    (h1 : remodel c T fs tasks s = .ok s') (h2 : remodel c T fs tasks s' = .ok s'') : ∀ p, get s'' p = get s' p := by
+  have hdisj : ∀ f ∈ fs, ∀ f' ∈ fs, c.dpath f ≠ c.bpath f' :=
+    fun f hf f' _ => dpath_ne_bpath c f f' (hout f hf)
+  have hnb : ∀ (pick : Path → Bool) (a : Path), ∀ f ∈ fs, pick f = true → c.bpath a ≠ c.dpath f :=
+    fun _ a f hf _ he => hout f hf (he ▸ bdir_prefix_bpath c a)
+  obtain ⟨s1, r1, c1⟩ := remodel_core c T fs tasks s s' h1
+  obtain ⟨s1', r2, c2⟩ := remodel_core c T fs tasks s' s'' h2
+  -- the first run again, to get at its second phase
+  have hw : copyMap c T (rewritten c tasks s1) fs s1 = .ok s' := by simpa [remodelCore, r1] using c1
+  have hb1 : ∀ f ∈ fs, ∃ b, get s1 (c.bpath f) = some (.reg b) := fun f hf => by
+    rw [copyMap_frame c id _ fs s s1 r1 _ (hnb _ f)]; exact hback f hf
+  have hb' : ∀ f ∈ fs, ∃ b, get s' (c.bpath f) = some (.reg b) := fun f hf => by
+    rw [copyMap_frame c T _ fs s1 s' hw _ (hnb _ f)]; exact hb1 f hf
+  -- both runs rewrite the same files
+  have hsame : ∀ f ∈ fs, rewritten c tasks s1' f = rewritten c tasks s1 f := by
+    intro f hf
+    have e1 := copyMap_isReg c id _ fs s s1 hdisj hback r1 f hf
+    have e2 := copyMap_isReg c T _ fs s1 s' hdisj hb1 hw f hf
+    have e3 := copyMap_isReg c id _ fs s' s1' hdisj hb' r2 f hf
+    simp only [rewritten] at e2 ⊢
+    rw [e3, e2]
+    cases hp : picked tasks f <;> cases hr : isReg s1 (c.dpath f) <;> simp_all
+  have c2' : remodelCore c T (picked tasks) (rewritten c tasks s1) fs s' = .ok s'' := by
+    simp only [remodelCore, r2] at c2 ⊢
+    rw [← copyMap_pick_congr c T _ _ fs s1' hsame]; exact c2
+  obtain ⟨u, hu, heq⟩ := remodelCore_idempotent c T _ _ fs s s' hout hback c1
+  rw [c2'] at hu
   cases hu; exact heq
+
+/-- **Remodel starts from the backed-up originals**: whatever the data files held, after a run every
+rewritten file (selected, of a requested task, and present after the run's restore) is `T` of its
+backup copy. -/
+theorem remodel_from_backup (c : Cfg) (T : List Sym → List Sym) (fs : List Path) (tasks : List Name)
+    (orig : Path → List Sym) (s s' : St)
+    (hout : ∀ f ∈ fs, ¬ c.bdir <+: c.dpath f)
+    (hback : ∀ f ∈ fs, get s (c.bpath f) = some (.reg (orig f)))
+    (h : remodel c T fs tasks s = .ok s') :
+    ∀ f ∈ fs, (selKey f && taskOk tasks f) = true → (picked tasks f || isReg s (c.dpath f)) = true →
+      get s' (c.dpath f) = some (.reg (T (orig f))) := by
+  intro f hf hsel hex
+  obtain ⟨s1, h1, hc⟩ := remodel_core c T fs tasks s s' h
+  have hw : copyMap c T (rewritten c tasks s1) fs s1 = .ok s' := by simpa [remodelCore, h1] using hc
+  have hdisj : ∀ a ∈ fs, ∀ a' ∈ fs, c.dpath a ≠ c.bpath a' :=
+    fun a ha a' _ => dpath_ne_bpath c a a' (hout a ha)
+  have b1 : ∀ a, get s1 (c.bpath a) = get s (c.bpath a) :=
+    fun a => copyMap_frame c id _ fs s s1 h1 _ (fun f' hf' _ he => hout f' hf' (he ▸ bdir_prefix_bpath c a))
+  have hreg := copyMap_isReg c id _ fs s s1 hdisj (fun a ha => ⟨_, hback a ha⟩) h1 f hf
+  obtain ⟨t2, ht2, sp2⟩ := copyMap_spec c T (rewritten c tasks s1) fs s1 hdisj
+    (fun a ha => ⟨_, by rw [b1]; exact hback a ha⟩)
+  rw [hw] at ht2; cases ht2
+  exact sp2 f hf (by simp only [rewritten, hreg, hex, hsel, Bool.and_self]) _ (by rw [b1]; exact hback f hf)
 
 /-! ## 9. An existing backup is never overwritten -/
 
@@ -590,7 +773,184 @@ theorem no_overwrite (c : Cfg) (listing : Listing) (s : St) (files : List Path)
     exact ⟨e, he, by simp [hn]⟩
   simp [create, this, exec]
 
-/-! ## 10. Non-vacuity: the hypotheses are satisfiable and the accepting branch is reachable -/
+/-! ## 10. Several named backups side by side -/
+
+theorem createSteps_tgt (c : Cfg) (s0 : St) (files : List Path) :
+    ∀ st ∈ createSteps c s0 files, st.simple = true ∧ ∀ q ∈ st.tgt, c.bdir <+: q := by
+  intro st hst
+  simp only [createSteps, List.mem_append] at hst
+  rcases hst with h | h
+  · constructor
+    · simp only [copyPhase, List.mem_append, List.mem_flatMap, perFile, mkdirsSteps, List.mem_map, writeSteps,
+        List.mem_cons, List.not_mem_nil, or_false] at h
+      rcases h with ⟨_, _, rfl⟩ | ⟨_, _, ⟨_, _, rfl⟩ | rfl | rfl | rfl | rfl⟩ <;> rfl
+    · intro q hq
+      rcases copyPhase_tgt c s0 files st h q hq with h1 | h1
+      · rw [h1]; exact List.prefix_refl _
+      · exact (bdir_prefix_broot c).trans h1
+  · constructor
+    · simp only [lockPhase, writeSteps, List.mem_cons, List.not_mem_nil, or_false] at h
+      rcases h with rfl | rfl | rfl | rfl <;> rfl
+    · intro q hq
+      rw [writeSteps_tgt _ _ st h q hq]
+      exact ⟨[lockName], by simp [Cfg.bdir, Cfg.lock]⟩
+
+theorem other_dir_not_prefix (c : Cfg) (a : Name) (hab : a ≠ c.name) (rest q : Path) (hq : c.bdir <+: q) :
+    ¬ (c.backups ++ [a] ++ rest) <+: q := by
+  intro h
+  have h1 : (c.backups ++ [a]) <+: q := (List.prefix_append _ _).trans h
+  have h2 := List.prefix_of_prefix_length_le h1 hq (by simp [Cfg.bdir])
+  simp only [Cfg.bdir] at h2
+  rw [List.prefix_append_right_inj] at h2
+  obtain ⟨t, ht⟩ := h2
+  simp at ht
+  exact hab ht.1
+
+theorem scanOne_congr (s s' : St) (B : Path) (a : Name)
+    (hget : ∀ p, (B ++ [a]) <+: p → get s' p = get s p)
+    (hch : children s' (B ++ [a]) = children s (B ++ [a]))
+    (hw : walk s' (B ++ [a, rootName]) = walk s (B ++ [a, rootName])) :
+    scanOne s' B a = scanOne s B a := by
+  have g1 := hget (B ++ [a]) (List.prefix_refl _)
+  have g2 := hget (B ++ [a, lockName]) ⟨[lockName], by simp⟩
+  have g3 := hget (B ++ [a, rootName]) ⟨[rootName], by simp⟩
+  unfold scanOne isDir
+  simp only []
+  rw [g1, g2, g3, hch, hw]
+
+/-- **Backups are independent.** Creating backup `B` — completely, or interrupted after any `k` steps —
+changes no file of another backup `A`, and the consistency scan's verdict on `A` is unchanged. -/
+theorem backups_independent (c : Cfg) (a : Name) (hab : a ≠ c.name) (s0 : St) (files : List Path) (k : Nat) :
+    (∀ p, (c.backups ++ [a]) <+: p → get (crashAfter k (createSteps c s0 files) s0) p = get s0 p) ∧
+    scanOne (crashAfter k (createSteps c s0 files) s0) c.backups a = scanOne s0 c.backups a := by
+  have htg := fun st (hst : st ∈ (createSteps c s0 files).take k) =>
+    createSteps_tgt c s0 files st (List.mem_of_mem_take hst)
+  have hget : ∀ p, (c.backups ++ [a]) <+: p → get (crashAfter k (createSteps c s0 files) s0) p = get s0 p := by
+    intro p hp
+    apply get_exec
+    intro st hst hq
+    have := other_dir_not_prefix c a hab [] p ((htg st hst).2 p hq)
+    simp at this; exact this hp
+  refine ⟨hget, scanOne_congr _ _ _ _ hget ?_ ?_⟩
+  · exact (children_walk_exec _ s0 _ (fun st hst => ⟨(htg st hst).1, fun q hq => by
+      have := other_dir_not_prefix c a hab [] q ((htg st hst).2 q hq); simpa using this⟩)).1
+  · exact (children_walk_exec _ s0 _ (fun st hst => ⟨(htg st hst).1, fun q hq => by
+      have := other_dir_not_prefix c a hab [rootName] q ((htg st hst).2 q hq); simpa using this⟩)).2
+
+theorem scanList_names (s : St) (B : Path) : ∀ (l : List Name) (L : Listing), scanList s B l = .ok L →
+    ∀ e, e ∈ l → ∃ ks, (e, ks) ∈ L
+  | [], L, _, e, he => by cases he
+  | a :: r, L, h, e, he => by
+    simp only [scanList] at h
+    split at h
+    · cases h
+    · rename_i ka _
+      split at h
+      · cases h
+      · rename_i l hl
+        cases h
+        rcases List.mem_cons.mp he with h1 | h1
+        · exact ⟨ka, h1 ▸ List.mem_cons_self ..⟩
+        · obtain ⟨ks, hks⟩ := scanList_names s B r l hl e h1
+          exact ⟨ks, List.mem_cons_of_mem _ hks⟩
+
+theorem scanList_mem_names (s : St) (B : Path) : ∀ (l : List Name) (L : Listing), scanList s B l = .ok L →
+    ∀ e ks, (e, ks) ∈ L → e ∈ l
+  | [], L, h, e, ks, hm => by simp [scanList] at h; subst h; simp at hm
+  | a :: r, L, h, e, ks, hm => by
+    simp only [scanList] at h
+    split at h
+    · cases h
+    · split at h
+      · cases h
+      · rename_i l hl
+        cases h
+        rcases List.mem_cons.mp hm with h1 | h1
+        · cases h1; exact List.mem_cons_self ..
+        · exact List.mem_cons_of_mem _ (scanList_mem_names s B r l hl e ks h1)
+
+/-- If managers can be constructed before and after creating `B`, backup `A` is listed with the same
+record in both listings. -/
+theorem other_backup_still_listed (c : Cfg) (a : Name) (hab : a ≠ c.name) (s0 : St) (files : List Path) (k : Nat)
+    (L L' : Listing) (ks : List Key)
+    (h0 : scan s0 c.backups = .ok L) (hl : (a, ks) ∈ L)
+    (h1 : scan (crashAfter k (createSteps c s0 files) s0) c.backups = .ok L') : (a, ks) ∈ L' := by
+  have hin : a ∈ children s0 c.backups := scanList_mem_names _ _ _ _ h0 _ _ hl
+  have hin' : a ∈ children (crashAfter k (createSteps c s0 files) s0) c.backups :=
+    mem_children_exec _ s0 _ _ (fun st hst => (createSteps_tgt c s0 files st (List.mem_of_mem_take hst)).1) hin
+  obtain ⟨ks', hks'⟩ := scanList_names _ _ _ _ h1 a hin'
+  have e1 := scanList_ok_mem _ _ _ _ h1 _ _ hks'
+  have e0 := scanList_ok_mem _ _ _ _ h0 _ _ hl
+  rw [(backups_independent c a hab s0 files k).2, e0] at e1
+  cases e1; exact hks'
+
+theorem scanList_error (s : St) (B : Path) : ∀ (l : List Name) (e : Name), e ∈ l →
+    (∀ ks, scanOne s B e ≠ .ok ks) → ∀ L, scanList s B l ≠ .ok L
+  | [], e, he, _, _ => by cases he
+  | a :: r, e, he, hbad, L => by
+    intro h
+    simp only [scanList] at h
+    split at h
+    · cases h
+    · rename_i ka hka
+      split at h
+      · cases h
+      · rename_i l hl
+        rcases List.mem_cons.mp he with h1 | h1
+        · subst h1; exact hbad ka hka
+        · exact scanList_error s B r e h1 hbad l hl
+
+/-- **What an interrupted creation leaves behind (observation 1, stated precisely).**  From the first step
+until the record is complete (`1 ≤ k < #copy steps + 3`), the scan of the whole backups directory
+FAILS: no manager can be constructed for this data root, so no backup at all is listed - neither the
+half-made one nor any earlier, intact one (whose files are untouched, `backups_independent`). -/
+theorem incomplete_backup_blocks_manager (c : Cfg) (s0 : St) (files : List Path) (k : Nat)
+    (hfresh : ∀ p, c.bdir <+: p → get s0 p = none)
+    (hk1 : 1 ≤ k) (hk2 : k < (copyPhase c s0 files).length + 3) :
+    ∀ L, scan (crashAfter k (createSteps c s0 files) s0) c.backups ≠ .ok L := by
+  -- the backup's directory entry exists from step 1 on
+  have hsteps : createSteps c s0 files = .mkdir c.bdir :: (createSteps c s0 files).drop 1 := by
+    simp [createSteps, copyPhase, mkdirsSteps, List.range, List.range.loop, Cfg.bdir]
+  have hin : c.name ∈ children (crashAfter k (createSteps c s0 files) s0) c.backups := by
+    obtain ⟨k', rfl⟩ : ∃ k', k = k' + 1 := ⟨k - 1, by omega⟩
+    unfold crashAfter
+    rw [hsteps, List.take_succ_cons, exec_cons]
+    apply mem_children_exec
+    · intro st hst
+      exact (createSteps_tgt c s0 files st (List.mem_of_mem_drop (List.mem_of_mem_take hst))).1
+    · apply mem_children_of_get
+      have : get s0 (c.backups ++ [c.name]) = none := hfresh _ (List.prefix_refl _)
+      simp [step, this, get_set, Cfg.bdir]
+  refine scanList_error _ _ _ c.name hin ?_
+  intro ks hone
+  obtain ⟨txt, hlock, hparse, _⟩ := scanOne_ok _ _ _ _ hone
+  have hs : crashAfter k (createSteps c s0 files) s0 =
+      exec ((lockPhase c files).take (k - (copyPhase c s0 files).length))
+        (exec ((copyPhase c s0 files).take k) s0) := by
+    simp [crashAfter, createSteps, List.take_append, exec_append]
+  generalize hj : k - (copyPhase c s0 files).length = j at hs
+  have hlock0 : get (exec ((copyPhase c s0 files).take k) s0) c.lock = none := by
+    rw [copyPhase_lock]; exact hfresh _ ⟨[lockName], by simp [Cfg.bdir, Cfg.lock]⟩
+  rw [hs] at hlock
+  change get _ c.lock = _ at hlock
+  have hrec := record_length_pos c.stamp ((files.map joinKey).eraseDups)
+  obtain h0 | h1 | h2 : j = 0 ∨ j = 1 ∨ j = 2 := by omega
+  · subst h0
+    have he : exec ((lockPhase c files).take 0) (exec ((copyPhase c s0 files).take k) s0)
+        = exec ((copyPhase c s0 files).take k) s0 := rfl
+    rw [he, hlock0] at hlock; cases hlock
+  · subst h1
+    simp [lockPhase, writeSteps, exec, step, get_set] at hlock
+    subst hlock; simp [parse_nil] at hparse
+  · subst h2
+    simp [lockPhase, writeSteps, exec, step, get_set] at hlock
+    subst hlock
+    simp only [recordOf] at hparse
+    rw [torn_record_rejected] at hparse
+    · cases hparse
+    · omega
+
+/-! ## 11. Non-vacuity: the hypotheses are satisfiable and the accepting branch is reachable -/
 
 section Examples
 def cEx : Cfg := { dataRoot := [['d']], backups := [['d'], ['b']], name := ['n'], stamp := ['t'] }
@@ -625,6 +985,19 @@ example : errOf (scan (crashAfter 9 (createSteps cEx sEx fEx) sEx) cEx.backups) 
 example : (runOps cEx id fEx [.modify [['d'], ['x']] [.byte 9], .delete [['d'], ['s']], .restore []]
     (exec (createSteps cEx sEx fEx) sEx)).toOption.bind (fun s => get s [['d'], ['s'], ['a']])
     = some (.reg [.byte 1, .byte 2, .byte 3]) := by decide
+/-- two backups side by side: the scan lists both ... -/
+example : ((scan (exec (createSteps { cEx with name := ['m'] } (exec (createSteps cEx sEx fEx) sEx) fEx)
+      (exec (createSteps cEx sEx fEx) sEx)) cEx.backups).toOption.map (fun l => l.map (·.1)))
+    = some [['n'], ['m']] := by decide
+/-- ... and an interrupted second one makes the whole scan fail (the first one's files are intact). -/
+example : errOf (scan (crashAfter 9 (createSteps { cEx with name := ['m'] } (exec (createSteps cEx sEx fEx) sEx) fEx)
+      (exec (createSteps cEx sEx fEx) sEx)) cEx.backups) = some .badBackupFormat := by decide
+/-- a restore interrupted inside a file leaves it truncated; a complete restore repairs it -/
+example : get (crashAfter 3 (restoreSteps cEx fEx [] (exec (createSteps cEx sEx fEx) sEx))
+      (exec (createSteps cEx sEx fEx) sEx)) [['d'], ['s'], ['a']] = some (.reg [.byte 1]) := by decide
+/-- record text of a non-ASCII / quoted key: escaped with `\uXXXX` (surrogate pair for U+1F600), read back -/
+example : parse (record ['t'] [['é', '/', '😀', '"']]) = some [['é', '/', '😀', '"']] := by decide
+example : (record ['t'] [['😀']]).length = 27 := by decide
 end Examples
 
 end HedVerif.C18
